@@ -115,7 +115,7 @@ func MatchTopic(filter string, topic string) (elements []string, matched bool) {
 		}
 	}
 
-	return elements, true
+	return elements, len(filterParts) == len(topicParts) // without a trailing '#' every topic level must have been matched
 }
 
 // Ledger is an auth ledger containing access rules for users and topics.
